@@ -110,6 +110,10 @@ def quiet(rid):
     if st == 'failed':
         return {'id': rid, 'status': 'ALARM', 'fired': ['analyser could not load the rewritten tree']}
     fired = sorted({o['rule'] + ' ' + o['key'] for o in data if o['property'] == prop})
+    # a rewrite on which the analyser is known to alarm wrongly (documented limitation, DESIGN.md section 7) is reported
+    # as such, separately from new false alarms
+    if fired and os.path.exists(os.path.join(verif, 'refactors', rid, 'KNOWN_FALSE_ALARM.txt')):
+        return {'id': rid, 'status': 'KNOWN-ALARM', 'fired': fired}
     return {'id': rid, 'status': 'ALARM' if fired else 'silent', 'fired': fired}
 rdir = os.path.join(verif, 'refactors')
 rids = sorted(x for x in os.listdir(rdir) if os.path.exists(os.path.join(rdir, x, 'patch.diff'))) if os.path.isdir(rdir) else []
@@ -119,7 +123,8 @@ with concurrent.futures.ThreadPoolExecutor(max_workers=6) as ex:
 json.dump({'mutants': len(results), 'detected': sum(1 for r in results if r['status'] == 'detected'),
            'missed': [r['id'] for r in results if r['status'] == 'MISSED'], 'results': results,
            'refactorings': {'applied': sum(1 for r in rres if r['status'] != 'skipped'), 'silent': sum(1 for r in rres if r['status'] == 'silent'),
-                            'alarms': [r for r in rres if r['status'] == 'ALARM'], 'skipped': [r['id'] for r in rres if r['status'] == 'skipped']}},
+                            'alarms': [r for r in rres if r['status'] == 'ALARM'], 'known_false_alarms': [r for r in rres if r['status'] == 'KNOWN-ALARM'],
+                            'skipped': [r['id'] for r in rres if r['status'] == 'skipped']}},
           sys.stdout, indent=1)
 PY
 python3 - "$RES" "$PROP" <<'PY'
@@ -132,6 +137,8 @@ rf = d.get('refactorings', {})
 print(f"silence test {sys.argv[2]}: {rf.get('silent', 0)}/{rf.get('applied', 0)} behaviour-preserving rewrites raise no alarm")
 for a in rf.get('alarms', []):
     print(f"SELFTEST-FALSE-ALARM property={sys.argv[2]} rewrite={a['id']} fired={a['fired'][:3]}")
+for a in rf.get('known_false_alarms', []):
+    print(f"SELFTEST-KNOWN-FALSE-ALARM property={sys.argv[2]} rewrite={a['id']} (documented limitation: refactors/{a['id']}/KNOWN_FALSE_ALARM.txt) fired={a['fired'][:2]}")
 PY
 
 # second target: must be clean too (no evidence written)
